@@ -228,25 +228,30 @@ elimination (Ymq/Model/IntMat.lean): the same algorithm as `GFpEchelonBuilder::{
 Montgomery form and without the 8-row blocks. The production model `Ech` (Montgomery form on the
 C07 word model, blocked elimination) is not related to `EchP` by a proof: the driver answers every
 echelon request with both models and the pipeline compares both with the implementation.
-Statement: if `add` accepts all `n` rows of an `n × n` integer matrix (`acceptAll`, no panic site
-reached: in particular the `assert_eq!(vp[i], self.r)` after the division certifies the modular
-inverse, so no hypothesis on `inv_mod64` and no primality of `p` is needed) and `det()` returns `d`,
-then `d ≡ det(matrix) (mod p)`, with the sign computed by the cycle walk (`perm_sign`).
-Missing: the rejected-row case (`add` returns false ⇒ `det ≡ 0`, used by `det_matz` when `p ∣ det`),
-totality, and the refinement `Ech → EchP`. -/
+Statement: for an `n × n` integer matrix (`n > 0`), whenever the determinant routine
+`detModPlain` (= `add` row by row, `0` as soon as a row is rejected, else `det()`, exactly what
+`det_matz` does for one prime) returns `d` without reaching a panic site, `d ≡ det(matrix) (mod p)`:
+* all rows accepted: `det() = sign(σ) · ∏ pivots`, the sign being the one computed by the cycle walk
+  (`perm_sign`), equals the determinant (invariant of `add`: the basis is in echelon form w.r.t. the
+  column order `σ = indices`, every accepted row is its pivot times its basis row plus earlier
+  basis rows);
+* a row rejected: it is a combination of the earlier rows, the determinant is `0`.
+No hypothesis on `inv_mod64` and no primality of `p` is needed: the `assert_eq!(vp[i], self.r)` after
+the division certifies the modular inverse. Missing: totality (for a prime `p` no assertion fails)
+and the refinement `Ech → EchP`. -/
 theorem echelon_det_partial (inv : Inv) (p n : Nat) (hn : 0 < n) (mat : List (List Int))
-    (hlen : mat.length = n) (hrows : ∀ r ∈ mat, r.length = n) (e : EchP) (d : Nat)
-    (hacc : acceptAll inv { p := p, indices := [], basis := [], factors := [] } mat = some e)
-    (hdet : e.det = some d) :
-    ((d : Nat) : ZMod p) = (matOf p n mat).det :=
-  echP_det inv p n hn mat hlen hrows e d hacc hdet
+    (hlen : mat.length = n) (hrows : ∀ r ∈ mat, r.length = n) (d : Nat)
+    (h : detModPlain inv p { p := p, indices := [], basis := [], factors := [] } mat = some d) :
+    ((d : Nat) : ZMod p) = (matOf p n mat).det := by
+  have := detModPlain_spec inv p n hn mat _ [] d (EchInv.init p n) (by simpa using hlen) hrows h
+  simpa using this
 
-/-- non-vacuity: the matrix `[[1, 2], [3, 4]]` modulo `101` is accepted row by row and `det()` returns
-`99 = -2` (K corpus line `im_echelon 101 1,2;3,4`); the inverse is found by search below `p` -/
-example : ∃ (inv : Inv) (e : EchP), acceptAll inv { p := 101, indices := [], basis := [], factors := [] }
-    [[1, 2], [3, 4]] = some e ∧ e.det = some 99 := by
-  refine ⟨fun a p => some ((List.range p).find? (fun i => a * i % p = 1)),
-    { p := 101, indices := [0, 1], basis := [[1, 2], [0, 1]], factors := [1, 99] }, by decide, by decide⟩
+/-- non-vacuity: `[[1, 2], [3, 4]]` modulo `101` gives `99 = -2`, the singular `[[1, 2], [2, 4]]` gives `0`
+(K corpus lines `im_detp 101 1,2;3,4`); the inverse is found by search below `p` -/
+example : ∃ inv : Inv,
+    detModPlain inv 101 { p := 101, indices := [], basis := [], factors := [] } [[1, 2], [3, 4]] = some 99 ∧
+    detModPlain inv 101 { p := 101, indices := [], basis := [], factors := [] } [[1, 2], [2, 4]] = some 0 :=
+  ⟨fun a p => some ((List.range p).find? (fun i => a * i % p = 1)), by decide, by decide⟩
 
 /-! ### Smith normal form
 
